@@ -202,7 +202,19 @@ def run(ctx):
                 base["typ"] = rng.choice(["JWT", "a/b é 中", "x"])
             if b64 is not None:
                 base["b64"] = b64
-                base["crit"] = ["b64"]
+                # crit lists with several names: b64 first / last / in the middle, next to registered parameters that are present
+                cv = rng.randrange(5)
+                if cv == 0:
+                    base["crit"] = ["b64"]
+                else:
+                    base["cty"] = "x/y"
+                    base.setdefault("typ", "JWT")
+                    base["crit"] = [["b64", "cty"], ["cty", "b64"], ["typ", "b64", "cty"], ["cty", "typ", "b64"]][cv - 1]
+                    if "kid" in base:
+                        base["crit"] = base["crit"] + ["kid"] if cv % 2 else ["kid"] + base["crit"]
+            elif rng.random() < 0.15:
+                base["cty"] = "x/y"
+                base["crit"] = ["cty"]
             pls = PAYLOADS if not quick else rng.sample(PAYLOADS, 2)
             for pl in pls:
                 is97 = b64 is not None
